@@ -249,6 +249,11 @@ class Effects:
                 continue
             if cur.op == "mcall" and cur.name == "copy":
                 return None, path, True
+            if cur.op == "elem":
+                # an element of an iterated sequence: a store into it changes the objects the sequence holds
+                path = "[*]" + path
+                cur = cur.args[0]
+                continue
             break
         if cur.op == "param":
             if cur.name in MODULE_ROOTS:
